@@ -92,7 +92,14 @@ theorem readCopy_ok (wo : WordOracle) (window np nd A : Nat) (distD distB : List
             | none => none
             | some (n, s) => some (n, s, rest) := by
   simp only [cmdOK, Bool.and_eq_true, decide_eq_true_eq] at hc
-  obtain ⟨⟨⟨⟨⟨⟨⟨_, _⟩, _⟩, _⟩, himp⟩, _⟩, hp16⟩, hdist⟩ := hc
+  obtain ⟨⟨⟨⟨⟨⟨⟨_, _⟩, _⟩, _⟩, himp⟩, _⟩, hp16⟩, hdist0⟩ := hc
+  have hdist : (if c.distPrefix % 1024 < 16 + nd then decide (c.distPrefix / 1024 = 0) && decide (c.distExtra = 0)
+      else decide (c.distPrefix / 1024 = rfcDistNBits np nd (c.distPrefix % 1024)) &&
+        decide (c.distExtra < 2 ^ (c.distPrefix / 1024)) &&
+        decide (rfcDistDecode np nd (c.distPrefix % 1024) c.distExtra < 2 ^ 31)) = true := by
+    rcases (Bool.or_eq_true _ _).mp hdist0 with h | h
+    · exact absurd (of_decide_eq_true h) hcl
+    · exact h
   have himp0 : (rfcCmdDecode c.cmdPrefix).2.2 = decide (c.cmdPrefix / 64 < 2) := rfl
   by_cases h128 : c.cmdPrefix ≥ 128
   · -- explicit distance symbol
